@@ -70,6 +70,14 @@ pub trait Check: Sync {
     /// How often a replay re-runs the case before concluding that it does not
     /// fail.  1 for deterministic subjects; more where the subject itself has
     /// uncontrolled nondeterminism (std HashMap iteration order in the solver).
+    /// Wall-clock limit for ONE case (the watchdog kills a worker whose case
+    /// runs longer and reports the case as not terminating)
+    fn case_timeout_s(&self, tier: Tier) -> f64 {
+        match tier {
+            Tier::Quick => 60.0,
+            Tier::Thorough => 600.0,
+        }
+    }
     fn replay_attempts(&self) -> u32 {
         1
     }
@@ -526,12 +534,14 @@ struct ShardOutcome {
     machinery_error: Option<String>,
 }
 
+#[allow(clippy::too_many_arguments)]
 fn run_shard(
     id: &str,
     tier: Tier,
     shard: usize,
     nshards: usize,
     budget_s: f64,
+    case_timeout_s: f64,
     agg: &std::sync::Mutex<Agg>,
 ) -> ShardOutcome {
     let exe = std::env::current_exe().unwrap();
@@ -582,6 +592,36 @@ fn run_shard(
             }
             tail
         });
+        // watchdog: a case that does not finish within the limit is a hang of
+        // the subject; the worker is killed and the case attributed like a crash
+        let hung = std::sync::Arc::new(std::sync::atomic::AtomicBool::new(false));
+        let finished = std::sync::Arc::new(std::sync::atomic::AtomicBool::new(false));
+        let wd = {
+            let (hung, finished, prog_path, pid) = (hung.clone(), finished.clone(), prog_path.clone(), child.id());
+            std::thread::spawn(move || {
+                let mut last: Option<(u64, u64)> = None;
+                let mut since = Instant::now();
+                while !finished.load(std::sync::atomic::Ordering::Relaxed) {
+                    std::thread::sleep(std::time::Duration::from_millis(250));
+                    let cur = match std::fs::read(&prog_path) {
+                        Ok(b) if b.len() >= 16 => Some((u64::from_le_bytes(b[0..8].try_into().unwrap()), u64::from_le_bytes(b[8..16].try_into().unwrap()))),
+                        _ => None,
+                    };
+                    if cur != last {
+                        last = cur;
+                        since = Instant::now();
+                    } else if let Some((_, sub)) = cur {
+                        if sub != u64::MAX && since.elapsed().as_secs_f64() > case_timeout_s {
+                            hung.store(true, std::sync::atomic::Ordering::Relaxed);
+                            unsafe {
+                                libc::kill(pid as i32, libc::SIGKILL);
+                            }
+                            return;
+                        }
+                    }
+                }
+            })
+        };
         let mut done = false;
         let mut last_upto: Option<u64> = None;
         for line in std::io::BufReader::new(stdout).lines().map_while(Result::ok) {
@@ -603,6 +643,9 @@ fn run_shard(
             }
         }
         let status = child.wait().expect("wait worker");
+        finished.store(true, std::sync::atomic::Ordering::Relaxed);
+        let _ = wd.join();
+        let was_hung = hung.load(std::sync::atomic::Ordering::Relaxed);
         let err_tail = err_thread.join().unwrap_or_default();
         if done && status.success() {
             return out;
@@ -634,7 +677,11 @@ fn run_shard(
             ));
             return out;
         }
-        let how = format!("{status}: {}", err_tail.last().cloned().unwrap_or_default());
+        let how = if was_hung {
+            format!("watchdog: the case was still running after {case_timeout_s} s and was killed (the subject does not terminate)")
+        } else {
+            format!("{status}: {}", err_tail.last().cloned().unwrap_or_default())
+        };
         out.crashed_cases.push((cu, cs, how));
         skip.push((cu, cs));
         if out.crashed_cases.len() > 40 {
@@ -708,11 +755,12 @@ pub fn check_main(check: &dyn Check, tier: Tier) -> i32 {
             Tier::Thorough => 3000.0,
         },
     );
+    let case_timeout_s: f64 = std::env::var("FV_CASE_TIMEOUT_S").ok().and_then(|s| s.parse().ok()).unwrap_or_else(|| check.case_timeout_s(tier));
     let agg_m = std::sync::Mutex::new(Agg::default());
     let outcomes: Vec<ShardOutcome> = std::thread::scope(|s| {
         let agg_m = &agg_m;
         let hs: Vec<_> = (0..nshards)
-            .map(|sh| s.spawn(move || run_shard(id, tier, sh, nshards, budget_s, agg_m)))
+            .map(|sh| s.spawn(move || run_shard(id, tier, sh, nshards, budget_s, case_timeout_s, agg_m)))
             .collect();
         hs.into_iter().map(|h| h.join().unwrap()).collect()
     });
@@ -729,8 +777,9 @@ pub fn check_main(check: &dyn Check, tier: Tier) -> i32 {
         for (u, s, how) in &o.crashed_cases {
             agg.crashes += 1;
             let label = check.unit_label(tier, *u as usize);
-            let v = json!({"sig": format!("process-crash {} {}", crash_kind(how), label).trim_end().to_string(), "unit": u, "sub": s,
-                "desc": {"crash": how}, "detail": format!("subject killed the worker process: {how}"), "count": 1});
+            let sig = if crash_kind(how) == "hang" { format!("hang: a case does not terminate {label}") } else { format!("process-crash {} {}", crash_kind(how), label) };
+            let v = json!({"sig": sig.trim_end().to_string(), "unit": u, "sub": s,
+                "desc": {"crash": how}, "detail": if how.starts_with("watchdog") { how.clone() } else { format!("subject killed the worker process: {how}") }, "count": 1});
             match meta.crash_policy {
                 CrashPolicy::Violation => Agg::merge_viol(&mut agg.violations, &v),
                 CrashPolicy::Deferred => Agg::merge_viol(&mut agg.deferred, &v),
@@ -768,7 +817,7 @@ pub fn check_main(check: &dyn Check, tier: Tier) -> i32 {
             continue;
         }
         // determinism check: the same case must fail again in a fresh process
-        if new_violations < 3 && !v.sig.starts_with("process-crash") {
+        if new_violations < 3 && !v.sig.starts_with("process-crash") && !v.sig.starts_with("hang:") {
             let st = std::process::Command::new(std::env::current_exe().unwrap())
                 .args(["replay", path.to_str().unwrap()])
                 .env("RUST_BACKTRACE", "0")
@@ -908,6 +957,9 @@ pub fn check_main(check: &dyn Check, tier: Tier) -> i32 {
 }
 
 fn crash_kind(how: &str) -> &'static str {
+    if how.starts_with("watchdog") {
+        return "hang";
+    }
     if how.contains("signal: 6") || how.contains("SIGABRT") {
         "abort"
     } else if how.contains("signal: 11") || how.contains("SIGSEGV") {
